@@ -20,7 +20,7 @@ import numpy as np
 from corr.C10 import AXIS_PAIRS, PYTH, R, RL, _call, _dy, _fr, _rot
 
 PROP = 'C11'
-TARGETS = ['T13o', 'T13e']
+TARGETS = ['T13o', 'T13e', 'TC11v', 'TC11a']
 LEAN_MODULES = ['HdVerif.Props.C11']
 MODEL_MODULES = ['HdVerif.Model.Stack']
 NAMESPACE = 'HdVerif.C11'
